@@ -1,0 +1,21 @@
+// Copyright (c) Tailscale Inc & AUTHORS
+// SPDX-License-Identifier: BSD-3-Clause
+
+//go:build verif
+
+package server
+
+import (
+	"context"
+
+	"github.com/aws/aws-sdk-go-v2/service/s3"
+	"github.com/tailscale/setec/db"
+)
+
+// VerifPeriodicBackup runs the unexported periodic-backup loop for d with an
+// injected S3 client and bucket, until ctx ends. It exists only under the
+// "verif" build tag, so that verification harnesses can drive the loop under
+// testing/synctest without network access.
+func VerifPeriodicBackup(ctx context.Context, d *db.DB, c *s3.Client, bucket string) {
+	(&Server{db: d, backupClient: c, backupBucket: bucket}).periodicBackup(ctx)
+}
